@@ -14,10 +14,11 @@
   here is `iter_eq_spec_daily_partial`, `iter_eq_spec_weekly_partial` and
   `iter_eq_spec_yearly_monthly_partial`: the four calendar frequencies DAILY, WEEKLY, MONTHLY, YEARLY
   with any INTERVAL ≥ 1, BYMONTH, BYMONTHDAY, BYYEARDAY, plain BYDAY (any BYDAY for DAILY / WEEKLY,
-  where nth members are demoted), BYHOUR, BYMINUTE, BYSECOND, the defaults taken from the start,
-  COUNT, UNTIL (for WEEKLY: UNTIL not before the start).  Missing: the three sub-daily frequencies
-  (the model skips empty periods, so the refinement is not period-by-period), the three computed
-  masks (BYWEEKNO, nth BYDAY, BYEASTER) and BYSETPOS.  Everything else below — including
+  where nth members are demoted), BYHOUR, BYMINUTE, BYSECOND, BYSETPOS (DAILY / MONTHLY / YEARLY; not
+  WEEKLY, see D-C01e), the defaults taken from the start, COUNT, UNTIL (for WEEKLY: UNTIL not before
+  the start).  Missing: the three sub-daily frequencies (the model skips empty periods, so the
+  refinement is not period-by-period), the three computed masks (BYWEEKNO, nth BYDAY, BYEASTER) and
+  WEEKLY + BYSETPOS on a week start.  Everything else below — including
   `iter_strictMono` for all seven frequencies — is proved for ALL rules / all argument sets, with no
   `Supported` hypothesis (so also inside the known-defect classes).
 -/
@@ -232,7 +233,7 @@ theorem filter_is_calendar (r : Rule) (hs : SimpleRule r) (y m : Int) (info : In
 
 /-- **`iter_eq_spec`, proved portion** (see the header for the full statement and what is missing):
     FREQ=DAILY, INTERVAL ≥ 1, valid start, any BYMONTH / BYMONTHDAY (members ≠ 0) / BYYEARDAY / BYDAY /
-    BYHOUR / BYMINUTE / BYSECOND, any COUNT / UNTIL — the model yields exactly the specification's recurrence set, for every number
+    BYHOUR / BYMINUTE / BYSECOND / BYSETPOS, any COUNT / UNTIL — the model yields exactly the specification's recurrence set, for every number
     of periods inside datetime's range. -/
 theorem iter_eq_spec_daily_partial (a : Args) (r : Rule) (da : DailyArgs a) (h : construct a = .ok r)
     (n : Nat) (hn : Spec.RRule.startOrd a + n * a.interval ≤ maxOrdinal) :
@@ -241,7 +242,8 @@ theorem iter_eq_spec_daily_partial (a : Args) (r : Rule) (da : DailyArgs a) (h :
 
 /-- **`iter_eq_spec`, proved portion, YEARLY / MONTHLY**: INTERVAL ≥ 1, valid start, any BYMONTH /
     BYMONTHDAY (members ≠ 0) / BYYEARDAY / plain BYDAY — or none, in which case the month and month
-    day come from the start —, any BYHOUR / BYMINUTE / BYSECOND, any COUNT / UNTIL: exactly the specification's recurrence set, for every
+    day come from the start —, any BYHOUR / BYMINUTE / BYSECOND / BYSETPOS (1-based positions, negative
+    from the end, in the period's sorted candidate list), any COUNT / UNTIL: exactly the specification's recurrence set, for every
     number of periods ending by year 9999. -/
 theorem iter_eq_spec_yearly_monthly_partial (a : Args) (r : Rule) (ya : YMArgs a) (h : construct a = .ok r)
     (n : Nat) (hy : a.freq = 0 → a.dtstart.y + n * a.interval ≤ 9999)
@@ -272,15 +274,21 @@ def dates (x : Py.R Rule) (n : Nat) : List (Int × Int × Int) :=
 -- a DailyArgs instance: every 3rd day, Fridays the 13th … (hypotheses of iter_eq_spec_daily_partial are satisfiable)
 example : DailyArgs { freq := 3, dtstart := dt 2024 2 28 9 30, interval := 3, bymonth := some [2, 3],
                       byweekday := some [(4, 0), (5, 0)], byhour := some [8, 20], count := some 4 } :=
-  ⟨⟨Or.inr rfl, by decide, by decide, rfl, rfl, rfl, by intro x hx; simp at hx⟩, rfl⟩
+  ⟨⟨Or.inr rfl, by decide, by decide, rfl, rfl, by intro x hx; simp at hx⟩, rfl⟩
 -- a WeeklyArgs instance: every 2nd week on Tuesday and Thursday, weeks starting on Sunday
 example : WeeklyArgs { freq := 2, dtstart := dt 2024 2 28 9 30, interval := 2, wkst := some 6,
                        byweekday := some [(1, 0), (3, 0)], count := some 5 } :=
-  ⟨⟨Or.inl rfl, by decide, by decide, rfl, rfl, rfl, by intro x hx; simp at hx⟩, rfl, by decide,
+  ⟨⟨Or.inl rfl, by decide, by decide, rfl, rfl, by intro x hx; simp at hx⟩, rfl, rfl, by decide,
    by intro u hu; simp at hu⟩
 -- a YMArgs instance: the 31st of every 2nd month from 2024-01-31 (months without a 31st are skipped, never coerced)
 example : YMArgs { freq := 1, dtstart := dt 2024 1 31 8, interval := 2, count := some 3 } :=
-  ⟨Or.inr rfl, by decide, by decide, rfl, rfl, rfl, by intro x hx; simp at hx, by intro w hw; simp at hw⟩
+  ⟨Or.inr rfl, by decide, by decide, rfl, rfl, by intro x hx; simp at hx, by intro w hw; simp at hw⟩
+-- … and with BYSETPOS: the last weekday (MO..FR) of every month
+example : YMArgs { freq := 1, dtstart := dt 2024 1 1 9, byweekday := some [(0, 0), (1, 0), (2, 0), (3, 0), (4, 0)],
+                   bysetpos := some [-1] } :=
+  ⟨Or.inr rfl, by decide, by decide, rfl, rfl, by intro x hx; simp at hx, by decide⟩
+example : dates (construct { freq := 1, dtstart := dt 2024 1 1 9, byweekday := some [(0, 0), (1, 0), (2, 0), (3, 0), (4, 0)],
+                             bysetpos := some [-1] }) 3 = [(2024, 1, 31), (2024, 2, 29), (2024, 3, 29)] := by decide +kernel
 example : (construct { freq := 3, dtstart := dt 2024 2 28 9 30, byhour := some [20, 8], byminute := some [0] }).map (·.timeset)
     = .ok (some [(8, 0, 0), (20, 0, 0)]) := by decide +kernel
 example : dates (construct { freq := 1, dtstart := dt 2024 1 31 8, interval := 2, count := some 3 }) 6
